@@ -15,7 +15,7 @@ from vk.run import Harness
 from vk import symnp, core
 from kawin.precipitation.KWNEuler import PrecipitateModel
 from kawin.precipitation.KWNBase import PrecipitateBase
-from kawin.precipitation.PrecipitationParameters import TemperatureParameters as PrecTP, PrecipitationData
+from kawin.precipitation.PrecipitationParameters import TemperatureParameters as PrecTP, PrecipitationData, Constraints
 from kawin.diffusion.DiffusionParameters import TemperatureParameters as DiffTP
 from kawin.diffusion.SinglePhase import SinglePhaseModel
 from kawin.diffusion.Diffusion import DiffusionModel
@@ -177,6 +177,37 @@ def eval_order(ctx, cls="prec", kind="array3", via="ctor", nq=2):
                       ctx.all([len(got[i]) == len(z)] + [ctx.eq(got[i][j], ref(ts[i])) for j in range(min(len(z), len(got[i])))]))
 
 
+def arg_purity(ctx, cls="diff", kind="array3", via="setter", as_array=True):
+    """the (hours, kelvin) sequences handed to a schedule setter / constructor are not modified, so the same arguments
+    describe the same schedule for a second object; both objects follow the schedule"""
+    args, ref, iso = mk_schedule(ctx, kind, as_array=as_array)
+    hs0 = [args[0][i] * 1 for i in range(len(args[0]))]; Ks0 = [args[1][i] * 1 for i in range(len(args[1]))]
+    t = seconds(ctx, "t")
+    objs = []
+    for k in range(2):
+        if cls == "prec":
+            tp = PrecTP(*args) if via == "ctor" else PrecTP()
+            if via == "setter":
+                tp.setTemperatureArray(*args)
+            elif via == "model":
+                tp = _prec_model(); tp.setTemperature(*args); tp = tp.temperatureParameters
+        else:
+            tp = DiffTP(*args) if via == "ctor" else DiffTP()
+            if via == "setter":
+                tp.setTemperatureArray(*args)
+            elif via == "model":
+                mdl = SinglePhaseModel([0.0, 1.0], 3, ["A", "B"], ["ALPHA"]); mdl.setTemperatureArray(*args); tp = mdl.temperatureParameters
+        objs.append(tp)
+        ctx.prove("the caller's hours and kelvin sequences are not modified [object %d]" % (k + 1),
+                  ctx.all([len(args[0]) == len(hs0), len(args[1]) == len(Ks0)] + [ctx.eq(args[0][i], hs0[i]) for i in range(min(len(hs0), len(args[0])))] +
+                          [ctx.eq(args[1][i], Ks0[i]) for i in range(min(len(Ks0), len(args[1])))]))
+    z = np.linspace(0.0, 1.0, 2)
+    for k, tp in enumerate(objs):
+        got = tp(t) if cls == "prec" else tp(z, t)[0]
+        ctx.observe("T%d" % (k + 1), got)
+        ctx.prove("object built from the same arguments follows the schedule [object %d]" % (k + 1), ctx.eq(got, ref(t)))
+
+
 # --------------------------------------------------------------------------- 2. constructor == setter
 def _prec_model(tp=None):
     return PrecipitateModel(phases=["beta"], elements=["A"], temperatureParameters=tp)
@@ -236,16 +267,17 @@ class TagTherm:
         return np.array([T * 1 for _ in range(len(gExtra))]), np.array([T * 1 for _ in range(len(gExtra))])
 
 
-def mk_binary(ctx, tp, bins=3, maxBins=8, stub_growth=True):
+def mk_binary(ctx, tp, bins=3, maxBins=8, stub_growth=True, nph=1):
     """real binary PrecipitateModel with a small grid, concrete material parameters, tagging backend;
     `used` receives (T, [table tags]) every time a growth rate is computed from the lookup table"""
     log, used = [], []
-    m = PrecipitateModel(phases=["beta"], elements=["A"], temperatureParameters=tp)
+    m = PrecipitateModel(phases=["beta", "gamma", "delta"][:nph], elements=["A"], temperatureParameters=tp)
     m.setPBMParameters(cMin=1e-10, cMax=1e-9, bins=bins, minBins=2, maxBins=maxBins)
     m.setThermodynamics(TagTherm(log))
     m.matrixParameters.volume.setVolume(1e-5, "VM", 4)
-    m.precipitateParameters[0].volume.setVolume(1e-5, "VM", 4)
-    m.precipitateParameters[0].gamma = 0.1
+    for q in range(nph):
+        m.precipitateParameters[q].volume.setVolume(1e-5, "VM", 4)
+        m.precipitateParameters[q].gamma = 0.1
     m.matrixParameters.initComposition = 0.05
     # not the subject here (C01 / C14 / C12): mass balance, nucleation and the growth-rate formula
     m._calcMassBalance = lambda t, x, Y: Y
@@ -257,7 +289,7 @@ def mk_binary(ctx, tp, bins=3, maxBins=8, stub_growth=True):
         return np.zeros(m.PBM[p].bins + 1)
     if stub_growth:
         m._singleGrowthBinary = growth_stub
-    m._getdXdt = lambda t, x, Y, growth: [np.zeros(m.PBM[0].bins)]
+    m._getdXdt = lambda t, x, Y, growth: [np.zeros(m.PBM[q].bins) for q in range(nph)]
     return m, log, used
 
 
@@ -377,16 +409,18 @@ def set_table_state(ctx, m, bins, Tt, Tl, Tfirst):
     m._isSetup = True
     m.pData.reset(2)
     n = m.pData.n
+    nph = len(m.phases)
     m.pData.temperature[0] = Tfirst
-    m.pData.xEqAlpha[0, 0, 0] = Tfirst * 1
-    m.pData.xEqBeta[0, 0, 0] = Tfirst * 1
     m.pData.temperature[n] = Tl
-    m.pData.xEqAlpha[n, 0, 0] = Tt * 1
-    m.pData.xEqBeta[n, 0, 0] = Tt * 1
-    m.pData.drivingForce[n, 0] = 1.0
-    m.PSDXalpha = [np.array([[Tt * 1] for _ in range(bins + 1)])]
-    m.PSDXbeta = [np.array([[Tt * 1] for _ in range(bins + 1)])]
-    m.growth = [np.zeros(bins + 1)]
+    for q in range(nph):
+        m.pData.xEqAlpha[0, q, 0] = Tfirst * 1
+        m.pData.xEqBeta[0, q, 0] = Tfirst * 1
+        m.pData.xEqAlpha[n, q, 0] = Tt * 1
+        m.pData.xEqBeta[n, q, 0] = Tt * 1
+        m.pData.drivingForce[n, q] = 1.0
+    m.PSDXalpha = [np.array([[Tt * 1] for _ in range(bins + 1)]) for q in range(nph)]
+    m.PSDXbeta = [np.array([[Tt * 1] for _ in range(bins + 1)]) for q in range(nph)]
+    m.growth = [np.zeros(bins + 1) for q in range(nph)]
     m.dTemp = Tl - Tt
 
 
@@ -475,26 +509,29 @@ def lookup_history(ctx, steps=3, stages=()):
 
 
 # --------------------------------------------------------------------------- 6. the other operation that touches the table
-def lookup_remesh(ctx, mode="resize", after=2, bins=4):
-    """real _updateParticleSizeDistribution when the grid changes (classes appended / grid resized) from an arbitrary
-    consistent state, followed by one growth-rate evaluation at an arbitrary new temperature"""
+def lookup_remesh(ctx, mode="resize", after=2, bins=4, nph=1):
+    """real _updateParticleSizeDistribution when the grid of the first phase changes (classes appended / grid resized;
+    further binary phases keep their grid) from an arbitrary consistent state, followed by growth-rate evaluations at
+    arbitrary new temperatures: the tables of all phases stay within maxTempChange of the temperature"""
     Tn, Tl, Tt, mx, Tf = table_state_inputs(ctx)
     Tnext = [Tn] + [ctx.real("T_now%d" % (k + 1), (500.0, 503.0)) for k in range(1, after)]
     for v in Tnext:
         ctx.assume(v > 0, "temperatures are positive (kelvin)")
-    m, log, used = mk_binary(ctx, PrecTP(Tn), bins=bins, maxBins={"resize": bins, "append": 2 * bins, "none": 2 * bins}[mode])
+    m, log, used = mk_binary(ctx, PrecTP(Tn), bins=bins, maxBins={"resize": bins, "append": 2 * bins, "none": 2 * bins}[mode], nph=nph)
     m.constraints.maxTempChange = mx
     set_table_state(ctx, m, bins, Tt, Tl, Tf)
-    x = [np.array([0.0] * (bins - 2) + [3.0, 5.0 if mode != "none" else 0.0])]
+    x = [np.array([0.0] * (bins - 2) + [3.0, 5.0 if mode != "none" else 0.0])] + [np.array([0.0] * (bins - 2) + [3.0, 0.0]) for q in range(1, nph)]
     tl = seconds(ctx, "t_last", (0.0, 1.0))
     m.pData.time[m.pData.n] = tl
     m._updateParticleSizeDistribution(tl, x)
-    ctx.prove("grid changed as intended by the harness", m.PBM[0].bins == {"resize": 2, "append": bins + bins // 4, "none": bins}[mode])
+    ctx.prove("grid changed as intended by the harness", m.PBM[0].bins == {"resize": 2, "append": bins + bins // 4, "none": bins}[mode]
+              and all(m.PBM[q].bins == bins for q in range(1, nph)))
     prove_uses(ctx, used, mx, "re-mesh")
     ctx.prove("growth rate re-computed at the recorded temperature", ctx.all([ctx.eq(u[0], Tl) for u in used]))
     ctx.observe("table", m.PSDXalpha[0][:, 0])
     ctx.observe("dTemp", m.dTemp)
-    ctx.prove("table has one entry per class boundary [after re-mesh]", len(m.PSDXalpha[0]) == m.PBM[0].bins + 1 and len(m.PSDXbeta[0]) == m.PBM[0].bins + 1)
+    ctx.prove("table has one entry per class boundary [after re-mesh]",
+              all(len(m.PSDXalpha[q]) == m.PBM[q].bins + 1 and len(m.PSDXbeta[q]) == m.PBM[q].bins + 1 for q in range(nph)))
     Tprev = Tl
     for k in range(after):
         Tk = Tnext[k]
@@ -504,8 +541,9 @@ def lookup_remesh(ctx, mode="resize", after=2, bins=4):
         Y.temperature = np.array([Tk])
         growth, Y2 = m._growthRateBinary(Y)
         prove_uses(ctx, used, mx, "steps after re-mesh")
+        ctx.prove("growth rate of every phase computed from its table", len(used) == nph)
         ctx.prove("equilibrium compositions were computed within maxTempChange of the current temperature [steps after re-mesh]",
-                  ctx.all([within(ctx, Tk, Y2.xEqAlpha[0, 0, 0], mx), within(ctx, Tk, Y2.xEqBeta[0, 0, 0], mx)]))
+                  ctx.all([within(ctx, Tk, Y2.xEqAlpha[0, q, 0], mx) for q in range(nph)] + [within(ctx, Tk, Y2.xEqBeta[0, q, 0], mx) for q in range(nph)]))
         m._appendArrays(Y2)
 
 
@@ -565,6 +603,7 @@ class _NucStub:
         return 2.0
 
     def betaBinary2(self, therm, x, T, Rcrit, matrix, precipitate, xEqAlpha=None, xEqBeta=None, removeCache=False):
+        self.beta2 = getattr(self, "beta2", []) + [(T, xEqAlpha, xEqBeta)]
         return 2.0
 
     def zeldovich(self, T, Rcrit, precipitate):
@@ -645,6 +684,96 @@ def incubation(ctx, kind="array2", prev="const"):
         ctx.observe("nucRate[%s]" % nm, Y.nucRate[0, 0])
 
 
+# --------------------------------------------------------------------------- 7b. step limit for a changing temperature
+def dt_temperature(ctx, through="constraints"):
+    """the step proposed after a step that changed the temperature by more than maxNonIsothermalDT would, at the last
+    step's rate |dT|/dtPrev, change it by at most maxNonIsothermalDT -- heating and cooling; otherwise the limit is dtMax"""
+    Tp = ctx.real("T_prev", (500.0, 510.0)); Tc = ctx.real("T_curr", (495.0, 515.0))
+    dtPrev = ctx.real("dtPrev", (0.5, 5.0)); dtMax = ctx.real("dtMax", (0.5, 50.0)); mt = ctx.real("maxNonIsothermalDT", (0.5, 3.0))
+    for v in (dtPrev, dtMax, mt):
+        ctx.assume(v > 0)
+    change = ctx.ite(Tc >= Tp, Tc - Tp, Tp - Tc)          # |dT| of the last step, heating or cooling
+    big = change > mt
+    if through == "constraints":
+        c = Constraints()
+        c.maxNonIsothermalDT = mt
+        dt = c.computeDTfromTemperature(1, np.array([Tp, Tc]), dtPrev, dtMax)
+        ctx.observe("dt", dt)
+        ctx.prove("temperature change at the last step's rate stays within maxNonIsothermalDT (heating and cooling)",
+                  ctx.implies(big, ctx.le(dt * change, mt * dtPrev)))
+        ctx.prove("no limit when the last step changed the temperature by at most maxNonIsothermalDT", ctx.implies(ctx.neg(big), ctx.eq(dt, dtMax)))
+        dt0 = c.computeDTfromTemperature(0, np.array([Tp, Tc]), dtPrev, dtMax)
+        ctx.prove("no limit before the first step", ctx.eq(dt0, dtMax))
+    else:
+        m, log, used = mk_binary(ctx, PrecTP(Tc))
+        m.constraints.maxNonIsothermalDT = mt
+        t1 = ctx.real("t_prev", (0.0, 10.0))
+        set_table_state(ctx, m, 3, Tc, Tc, Tp)
+        m.pData.temperature[0] = Tp
+        m.pData.temperature[1] = Tc
+        m.pData.time[0] = t1
+        m.pData.time[1] = t1 + dtPrev
+        m.finalTime = t1 + dtPrev + dtMax
+        dt = m.getDt(None)
+        ctx.observe("dt", dt)
+        eff = ctx.ite(dt <= dtMax, dt, dtMax)              # the solver never steps past the end time (C05)
+        ctx.prove("step taken after getDt: temperature change at the last step's rate stays within maxNonIsothermalDT (heating and cooling)",
+                  ctx.implies(big, ctx.le(eff * change, mt * dtPrev)))
+        ctx.prove("getDt proposes a positive step", ctx.lt(0.0 * dt, dt))
+
+
+# --------------------------------------------------------------------------- 7c. what the mass balance / nucleation rate read
+def lookup_in_mass_balance(ctx, bins=3):
+    """the real _calculateDependentTerms at a new step time from an arbitrary consistent state: the interfacial-composition
+    table read by the real _calcMassBalance and the equilibrium compositions handed to the impingement rate
+    (setBetaBinary(2)) by the real _calcNucleationRate were computed within maxTempChange of the step's temperature"""
+    Tn, Tl, Tt, mx, Tf = table_state_inputs(ctx)
+    tl = seconds(ctx, "t_last", (0.0, 1.0)); dt = seconds(ctx, "dt", (0.1, 1.0))
+    ctx.assume(tl > 0); ctx.assume(dt > 0)
+    sched = lambda t: Tn                                    # schedule: the new temperature at the new step time
+    m, log, used = mk_binary(ctx, PrecTP(sched), bins=bins)
+    m.constraints.maxTempChange = mx
+    m.setBetaBinary(2)
+    set_table_state(ctx, m, bins, Tt, Tl, Tf)
+    m.pData.time[0] = 0.0 * tl
+    m.pData.time[1] = tl
+    m.pData.composition[0] = 0.05
+    m.pData.composition[1] = 0.05
+    read_mb, calls = [], []
+    del m._calcMassBalance
+    del m._calcNucleationRate                               # the real methods again
+    real_mb = m._calcMassBalance
+
+    def mass_balance(t, x, Y):
+        read_mb.append((Y.temperature[0], [m.PSDXbeta[0][i, 0] * 1 for i in range(len(m.PSDXbeta[0]))]))
+        return real_mb(t, x, Y)
+    m._calcMassBalance = mass_balance
+    m._calcNucleationSites = lambda t, x, p: 1.0
+    stub = _NucStub(ctx, calls)
+    x = [np.array([0.0] + [2.0 + i for i in range(bins - 1)])]
+    saved = KWNBASE_MOD.nucfuncs
+    KWNBASE_MOD.nucfuncs = stub
+    try:
+        m.preProcess()
+        m._calculateDependentTerms(tl, x)                   # start of the step: copies the last record
+        m._calculateDependentTerms(tl + dt, x)              # the new step
+    finally:
+        KWNBASE_MOD.nucfuncs = saved
+    Y = m._currY
+    ctx.observe("T_step", Y.temperature[0])
+    ctx.observe("fconc", Y.fconc[0, 0, 0])
+    beta2 = getattr(stub, "beta2", [])
+    ctx.prove("step evaluated at the schedule's temperature", ctx.eq(Y.temperature[0], Tn))
+    ctx.prove("mass balance, impingement rate and growth rate evaluated once for the step", len(read_mb) == 1 and len(beta2) == 1 and len(used) == 1)
+    for (T, tags) in read_mb:
+        ctx.prove("interfacial compositions read by the mass balance were computed within maxTempChange of the step's temperature",
+                  ctx.all([ctx.eq(T, Tn)] + [within(ctx, T, g, mx) for g in tags]))
+    for (T, xa, xb) in beta2:
+        ctx.prove("equilibrium compositions read by the nucleation rate were computed within maxTempChange of the step's temperature",
+                  ctx.all([ctx.eq(T, Tn), within(ctx, T, xa[0, 0] if np.ndim(xa) == 2 else xa[0], mx), within(ctx, T, xb[0, 0] if np.ndim(xb) == 2 else xb[0], mx)]))
+    prove_uses(ctx, used, mx, "growth rate of the step")
+
+
 # --------------------------------------------------------------------------- 8. diffusion model
 class _DiffTherm:
     def __init__(self, log):
@@ -716,6 +845,12 @@ HARNESSES = [
                               dict(cls="diff", kind="const", via="setter")],
                     "thorough": [dict(cls=c, kind=k, via=v, nq=(2 if k == "array4" else 3)) for c in ("prec", "diff") for k in ("const", "array3", "array4", "func") for v in ("ctor", "setter")] +
                                 [dict(cls="prec", kind="array5", via="ctor", nq=2), dict(cls="prec", kind="array3", via="model", nq=3)]}),
+    Harness("C13.arg_purity", arg_purity, functions=_FM, assumptions=_A_SCHED,
+            bounds={"break points": "2-3 (quick), 2-4 (thorough)", "objects built from one pair of sequences": 2, "sequence type": "list / float ndarray"},
+            params={"quick": [dict(cls=c, kind=k, via=v, as_array=a) for c, k, v, a in (("diff", "array3", "setter", True), ("diff", "array2", "ctor", True), ("diff", "array2", "model", True),
+                                                                                       ("diff", "array2", "setter", False), ("prec", "array3", "setter", True), ("prec", "array2", "ctor", True),
+                                                                                       ("prec", "array2", "model", False))],
+                    "thorough": [dict(cls=c, kind=k, via=v, as_array=a) for c in ("diff", "prec") for k in ("array2", "array4") for v in ("ctor", "setter", "model") for a in (True, False)]}),
     Harness("C13.ctor_vs_setter", ctor_vs_setter, functions=_FM, assumptions=_A_SCHED,
             bounds={"routes": "constructor object / setter / constructor(other kind) then setter / setter(other kind) then setter / constructor object filled afterwards / object shared with a sibling model whose setter is used"},
             params={"quick": [dict(model=mo, kind=k, prev=p) for mo in ("prec", "diff") for k, p in _cvs],
@@ -742,9 +877,10 @@ HARNESSES = [
             bounds={"steps from setup": 2, "intermediate stage evaluations per step (RK4-like)": "1 (quick), 1-2 (thorough)"},
             params={"quick": [dict(steps=2, stages=(0.5,))], "thorough": [dict(steps=3, stages=(0.5,)), dict(steps=2, stages=(0.5, 1.0))]}),
     Harness("C13.lookup_remesh", lookup_remesh, functions=_FR, assumptions=_A_TABLE, stubs=_S_TAG,
-            bounds={"size classes": "4 -> 2 / 5 / 4 (quick), 8 -> 2 / 10 / 8 (thorough)", "steps after the re-mesh": "2 (quick), 3 (thorough)"},
-            params={"quick": [dict(mode="none"), dict(mode="resize"), dict(mode="append")],
-                    "thorough": [dict(mode=mo, after=3, bins=8) for mo in ("none", "resize", "append")]}),
+            bounds={"size classes": "4 -> 2 / 5 / 4 (quick), 8 -> 2 / 10 / 8 (thorough)", "steps after the re-mesh": "2 (quick), 3 (thorough)", "binary phases": "1-2 (quick), 1-3 (thorough); the first one is re-meshed"},
+            params={"quick": [dict(mode="none"), dict(mode="resize"), dict(mode="append"), dict(mode="resize", nph=2), dict(mode="append", nph=2)],
+                    "thorough": [dict(mode=mo, after=3, bins=8) for mo in ("none", "resize", "append")] +
+                                [dict(mode=mo, after=2, bins=4, nph=n_) for mo in ("none", "resize", "append") for n_ in (2, 3)]}),
     Harness("C13.lookup_after_reset", lookup_after_reset, functions=_FR + [PrecipitateBase.reset, PrecipitateModel.reset, PrecipitateModel.setPBMParameters],
             assumptions=_A_TABLE + ["between reset() and setup() the user sets the size grid again (reset re-creates default grids) and may set the start time"],
             stubs=_S_TAG, bounds={"size classes": "3 (quick), 6 (thorough)", "steps after the restart": "2 (quick), 3 (thorough)"},
@@ -753,9 +889,32 @@ HARNESSES = [
             stubs=_S_TAG + ["module kawin.precipitation.NucleationRate as seen from KWNBase replaced by a recording stub while _calcNucleationRate runs; model._calcNucleationSites -> 1"],
             params={"quick": [dict(kind=k, prev=p) for k, p in (("const", "array2"), ("array2", "const"), ("func", "const"), ("const", "func"))],
                     "thorough": [dict(kind=k, prev=p) for k in ("const", "array2", "array3", "func") for p in ("const", "array2", "func") if p != k]}),
+    Harness("C13.dt_temperature", dt_temperature, functions=[Constraints.computeDTfromTemperature, PrecipitateModel.getDt, Constraints.computeDTfromPSD,
+                                                             Constraints.computeDTfromNucleationRate, Constraints.computeDTfromRcrit, Constraints.computeDTfromVolume],
+            assumptions=["dtPrev, dtMax, maxNonIsothermalDT > 0; checkTemperature on (default); recorded temperatures of the last two steps arbitrary",
+                         "through getDt: no particles, zero growth / nucleation rate (the other step limits return dtMax); the step actually taken is min(getDt, dtMax) (C05)"],
+            stubs=_S_TAG[1:], bounds={"phases": 1, "size classes": 3},
+            params={"quick": [dict(through="constraints"), dict(through="getDt")], "thorough": [dict(through="constraints"), dict(through="getDt")]}),
     Harness("C13.diffusion_T", diffusion_T, functions=_FM + [SinglePhaseModel._getFluxes, DiffusionModel.getdXdt], assumptions=_A_SCHED,
             stubs=["GeneralThermodynamics.getInterdiffusivity: records the temperature it is asked at, returns a constant", "composition cache switched off (C09's subject)"],
             bounds={"nodes": 3, "solutes": 1},
             params={"quick": [dict(kind=k, via=v) for k in KINDS for v in ("ctor", "setter")],
                     "thorough": [dict(kind=k, via=v) for k in _allk for v in ("ctor", "setter")]}),
 ]
+
+
+# known finding (both obligations listed in known_findings.json): the refresh happens after the mass balance and the nucleation rate
+HARNESSES += [
+    Harness("C13.lookup_in_mass_balance", lookup_in_mass_balance, functions=_FR + [PrecipitateModel._calcMassBalance, PrecipitateBase._calcNucleationRate],
+            assumptions=_A_TABLE + ["setBetaBinary(2) (the impingement rate that reads the equilibrium compositions); particles present in 2+ size classes"],
+            stubs=_S_TAG + ["module kawin.precipitation.NucleationRate as seen from KWNBase replaced by a recording stub; model._calcNucleationSites -> 1",
+                            "model._calcMassBalance wrapped: records the table it is about to read, then runs the real method"],
+            bounds={"size classes": "bins", "phases": 1},
+            params={"quick": [dict(bins=3)], "thorough": [dict(bins=3), dict(bins=6)]}),
+]
+# harnesses whose obligations are violated on the unchanged tree and are not (yet) listed as known findings:
+# run them with  VK_PENDING=1 ./vcheck C13 --only <id>
+PENDING = []
+import os as _os
+if _os.environ.get("VK_PENDING"):
+    HARNESSES = HARNESSES + PENDING
